@@ -335,4 +335,309 @@ theorem frames_fold (bs : List Block) (ks : List (Nat × Bool)) (m : RMatrix) (h
       rw [this.1]
       simp [framesOfBlocks]
 
+/-! ## frames after a sequence of statements: every frame goes through the updates of the statements that name it -/
+
+/-- change the first signal of that name -/
+def modSigByName (name : Str) (g : RSig → RSig) (f : RFrame) : RFrame :=
+  match sigIdx f name with
+  | some j => f.modSig j g
+  | none => f
+
+/-- what a statement does to a frame whose identifier its number denotes (statements about frames and signals) -/
+def itemFrameUpd : Item → Option (Nat × (RFrame → RFrame))
+  | .tx t => some (t.id, fun f => { f with transmitters := addTransmitters f.transmitters t.ecus })
+  | .cm (.bo n) text => some (n, fun f => { f with comment := some text })
+  | .cm (.sg n name) text => some (n, modSigByName name fun s => { s with comment := some text })
+  | .val v => some (v.id, modSigByName v.name fun s => { s with values := v.entries.foldl (fun acc (k, t) => assocSet acc k t) s.values })
+  | _ => none
+
+/-- applied to every frame: the frames with the identifier the number denotes change -/
+def updByNumber (n : Nat) (g : RFrame → RFrame) (f : RFrame) : RFrame :=
+  if keyOfCompound n == some f.key then g f else f
+
+theorem modifyAt_eq_map {α} (l : List α) (i : Nat) (g : α → α) (p : α → Bool)
+    (hi : ∀ a, l[i]? = some a → p a = true) (hu : ∀ j a, l[j]? = some a → p a = true → j = i) :
+    modifyAt l i g = l.map fun a => if p a then g a else a := by
+  induction l generalizing i with
+  | nil => rfl
+  | cons x r ih =>
+    cases i with
+    | zero =>
+      have hx : p x = true := hi x rfl
+      simp only [modifyAt, List.map_cons, hx, if_true, List.cons.injEq, true_and]
+      have : ∀ a ∈ r, p a = false := by
+        intro a ha
+        obtain ⟨j, hj⟩ := List.getElem?_of_mem ha
+        cases hpa : p a with
+        | false => rfl
+        | true => have := hu (j + 1) a (by simpa using hj) hpa; omega
+      rw [List.map_congr_left (g := id)]
+      · simp
+      · intro a ha; simp [this a ha]
+    | succ i =>
+      have hx : p x = false := by
+        cases hpx : p x with
+        | false => rfl
+        | true => have := hu 0 x rfl hpx; omega
+      simp only [modifyAt, List.map_cons, hx, Bool.false_eq_true, if_false, List.cons.injEq, true_and]
+      exact ih i (fun a ha => hi a (by simpa using ha)) (fun j a hj hp => by have := hu (j + 1) a (by simpa using hj) hp; omega)
+
+theorem findIdx_some_spec {α} (p : α → Bool) (l : List α) (i : Nat) (h : l.findIdx? p = some i) :
+    ∃ a, l[i]? = some a ∧ p a = true := by
+  induction l generalizing i with
+  | nil => simp at h
+  | cons x r ih =>
+    simp only [List.findIdx?_cons] at h
+    by_cases hx : p x = true
+    · simp only [hx, if_true, Option.some.injEq] at h
+      subst h
+      exact ⟨x, rfl, hx⟩
+    · simp only [hx, Bool.false_eq_true, if_false, Option.map_eq_some_iff] at h
+      obtain ⟨j, hj, rfl⟩ := h
+      obtain ⟨a, ha, hp⟩ := ih j hj
+      exact ⟨a, by simpa using ha, hp⟩
+
+theorem findIdx_none_spec {α} (p : α → Bool) (l : List α) (h : l.findIdx? p = none) : ∀ a ∈ l, p a = false := by
+  induction l with
+  | nil => simp
+  | cons x r ih =>
+    simp only [List.findIdx?_cons] at h
+    by_cases hx : p x = true
+    · simp [hx] at h
+    · simp only [hx, Bool.false_eq_true, if_false, Option.map_eq_none_iff] at h
+      intro a ha
+      rcases List.mem_cons.mp ha with rfl | ha
+      · simpa using hx
+      · exact ih h a ha
+
+theorem atMostOne_index {α} (p : α → Bool) (l : List α) (h : AtMostOne p l) (i j : Nat) (a b : α)
+    (hi : l[i]? = some a) (hj : l[j]? = some b) (ha : p a = true) (hb : p b = true) : j = i := by
+  induction l generalizing i j with
+  | nil => simp at hi
+  | cons x r ih =>
+    obtain ⟨h1, h2⟩ := h
+    cases i with
+    | zero =>
+      cases j with
+      | zero => rfl
+      | succ j =>
+        simp at hi; subst hi
+        have := h1 ha b (List.mem_of_getElem? (by simpa using hj))
+        rw [hb] at this; exact absurd this (by decide)
+    | succ i =>
+      cases j with
+      | zero =>
+        simp at hj; subst hj
+        have := h1 hb a (List.mem_of_getElem? (by simpa using hi))
+        rw [ha] at this; exact absurd this (by decide)
+      | succ j =>
+        have := ih h2 i j (by simpa using hi) (by simpa using hj)
+        omega
+
+theorem modifyAt_id_at {α} (l : List α) (i : Nat) (g : α → α) (h : ∀ a, l[i]? = some a → g a = a) : modifyAt l i g = l := by
+  induction l generalizing i with
+  | nil => rfl
+  | cons x r ih =>
+    cases i with
+    | zero => simp [modifyAt, h x rfl]
+    | succ i => simp only [modifyAt, List.cons.injEq, true_and]; exact ih i (fun a ha => h a (by simpa using ha))
+
+theorem modifyAt_congr_at {α} (l : List α) (i : Nat) (g h : α → α) (hh : ∀ a, l[i]? = some a → g a = h a) :
+    modifyAt l i g = modifyAt l i h := by
+  induction l generalizing i with
+  | nil => rfl
+  | cons x r ih =>
+    cases i with
+    | zero => simp [modifyAt, hh x rfl]
+    | succ i => simp only [modifyAt, List.cons.injEq, true_and]; exact ih i (fun a ha => hh a (by simpa using ha))
+
+/-- under pairwise different identifiers, changing the frame a number finds is changing every frame with the identifier it denotes -/
+theorem modFrame_as_map (m : RMatrix) (hu : KeysUnique m) (n i : Nat) (g : RFrame → RFrame) (h : frameIdx m n = some i) :
+    modifyAt m.frames i g = m.frames.map (updByNumber n g) := by
+  unfold frameIdx at h
+  cases hk : keyOfCompound n with
+  | none => rw [hk] at h; simp at h
+  | some k =>
+    rw [hk] at h
+    simp only at h
+    have hamo := atMostOne_key m.frames k hu
+    rw [findLast_unique _ _ hamo] at h
+    obtain ⟨a, ha, hpa⟩ := findIdx_some_spec _ _ _ h
+    rw [modifyAt_eq_map m.frames i g (fun f => f.key == k)
+      (fun b hb => by rw [ha] at hb; injection hb with hb; subst hb; exact hpa)
+      (fun j b hj hb => atMostOne_index _ _ hamo i j a b ha hj hpa hb)]
+    apply List.map_congr_left
+    intro f _
+    unfold updByNumber
+    rw [hk]
+    by_cases hf : f.key = k
+    · simp [hf]
+    · have : ¬ k = f.key := fun e => hf e.symm
+      simp [hf, this]
+
+theorem no_frame_map (m : RMatrix) (n : Nat) (g : RFrame → RFrame) (h : frameIdx m n = none) (hu : KeysUnique m) :
+    m.frames.map (updByNumber n g) = m.frames := by
+  unfold frameIdx at h
+  cases hk : keyOfCompound n with
+  | none =>
+    have : ∀ f : RFrame, updByNumber n g f = f := by intro f; simp [updByNumber, hk]
+    rw [List.map_congr_left (g := id) (fun f _ => this f)]
+    simp
+  | some k =>
+    rw [hk] at h
+    simp only at h
+    rw [findLast_unique _ _ (atMostOne_key m.frames k hu)] at h
+    have hno := findIdx_none_spec _ _ h
+    rw [List.map_congr_left (g := id)]
+    · simp
+    · intro f hf
+      have := hno f hf
+      have hne : ¬ k = f.key := by
+        intro e; rw [e] at this; simp at this
+      simp [updByNumber, hk, hne]
+
+theorem frameIdx_valid (m : RMatrix) (hu : KeysUnique m) (n i : Nat) (h : frameIdx m n = some i) : ∃ a, m.frames[i]? = some a := by
+  unfold frameIdx at h
+  cases hk : keyOfCompound n with
+  | none => rw [hk] at h; simp at h
+  | some k =>
+    rw [hk] at h
+    simp only at h
+    rw [findLast_unique _ _ (atMostOne_key m.frames k hu)] at h
+    obtain ⟨a, ha, _⟩ := findIdx_some_spec _ _ _ h
+    exact ⟨a, ha⟩
+
+theorem frameIdx_none_of_key (m : RMatrix) (n : Nat) (h : (keyOfCompound n).isNone = true) : frameIdx m n = none := by
+  unfold frameIdx
+  cases hk : keyOfCompound n with
+  | none => rfl
+  | some k => rw [hk] at h; simp at h
+
+/-- the frames after a statement about a frame or a signal: every frame with the identifier the statement's number denotes is changed
+by the statement's update, all others stay -/
+theorem applyItem_frames (m : RMatrix) (hu : KeysUnique m) (it : Item) (n : Nat) (g : RFrame → RFrame)
+    (hit : itemFrameUpd it = some (n, g)) : (applyItem m it).frames = m.frames.map (updByNumber n g) := by
+  cases hfi : frameIdx m n with
+  | none =>
+    rw [no_frame_map m n g hfi hu]
+    cases it with
+    | tx t =>
+      simp only [itemFrameUpd, Option.some.injEq, Prod.mk.injEq] at hit; obtain ⟨rfl, rfl⟩ := hit
+      simp only [applyItem, Item.frameNo, applyCore, hfi]
+      split <;> rfl
+    | val v =>
+      simp only [itemFrameUpd, Option.some.injEq, Prod.mk.injEq] at hit; obtain ⟨rfl, rfl⟩ := hit
+      simp only [applyItem, Item.frameNo, applyCore, hfi]
+      split <;> rfl
+    | cm hd text =>
+      cases hd with
+      | bo id =>
+        simp only [itemFrameUpd, Option.some.injEq, Prod.mk.injEq] at hit; obtain ⟨rfl, rfl⟩ := hit
+        simp only [applyItem, Item.frameNo, applyCore, hfi]
+        split <;> rfl
+      | sg id name =>
+        simp only [itemFrameUpd, Option.some.injEq, Prod.mk.injEq] at hit; obtain ⟨rfl, rfl⟩ := hit
+        simp only [applyItem, Item.frameNo, applyCore, hfi]
+        split <;> rfl
+      | bu name => simp [itemFrameUpd] at hit
+    | _ => simp [itemFrameUpd] at hit
+  | some i =>
+    obtain ⟨a, ha⟩ := frameIdx_valid m hu n i hfi
+    have hkn := key_of_frameIdx m n i hfi
+    rw [← modFrame_as_map m hu n i g hfi]
+    cases it with
+    | tx t =>
+      simp only [itemFrameUpd, Option.some.injEq, Prod.mk.injEq] at hit; obtain ⟨rfl, rfl⟩ := hit
+      simp only [applyItem, Item.frameNo, hkn, Bool.false_eq_true, if_false, applyCore, hfi, RMatrix.modFrame]
+    | val v =>
+      simp only [itemFrameUpd, Option.some.injEq, Prod.mk.injEq] at hit; obtain ⟨rfl, rfl⟩ := hit
+      simp only [applyItem, Item.frameNo, hkn, Bool.false_eq_true, if_false, applyCore, hfi, ha, Option.bind_some]
+      cases hs : sigIdx a v.name with
+      | none =>
+        simp only
+        exact (modifyAt_id_at _ _ _ (fun b hb => by rw [ha] at hb; injection hb with hb; subst hb; simp [modSigByName, hs])).symm
+      | some si =>
+        simp only [RMatrix.modFrame]
+        exact modifyAt_congr_at _ _ _ _ (fun b hb => by rw [ha] at hb; injection hb with hb; subst hb; simp [modSigByName, hs])
+    | cm hd text =>
+      cases hd with
+      | bo id =>
+        simp only [itemFrameUpd, Option.some.injEq, Prod.mk.injEq] at hit; obtain ⟨rfl, rfl⟩ := hit
+        simp only [applyItem, Item.frameNo, hkn, Bool.false_eq_true, if_false, applyCore, hfi, RMatrix.modFrame]
+      | sg id name =>
+        simp only [itemFrameUpd, Option.some.injEq, Prod.mk.injEq] at hit; obtain ⟨rfl, rfl⟩ := hit
+        simp only [applyItem, Item.frameNo, hkn, Bool.false_eq_true, if_false, applyCore, hfi, ha, Option.bind_some]
+        cases hs : sigIdx a name with
+        | none =>
+          simp only
+          exact (modifyAt_id_at _ _ _ (fun b hb => by rw [ha] at hb; injection hb with hb; subst hb; simp [modSigByName, hs])).symm
+        | some si =>
+          simp only [RMatrix.modFrame]
+          exact modifyAt_congr_at _ _ _ _ (fun b hb => by rw [ha] at hb; injection hb with hb; subst hb; simp [modSigByName, hs])
+      | bu name => simp [itemFrameUpd] at hit
+    | _ => simp [itemFrameUpd] at hit
+
+/-- the update a statement makes to a frame (identity for frames it does not name and for other statement kinds) -/
+def itemUpd (it : Item) (f : RFrame) : RFrame :=
+  match itemFrameUpd it with
+  | some (n, g) => updByNumber n g f
+  | none => f
+
+theorem modSig_key (f : RFrame) (j : Nat) (g : RSig → RSig) : (f.modSig j g).key = f.key := rfl
+
+theorem modSigByName_key (name : Str) (g : RSig → RSig) (f : RFrame) : (modSigByName name g f).key = f.key := by
+  unfold modSigByName; split <;> rfl
+
+theorem itemUpd_key (it : Item) (f : RFrame) : (itemUpd it f).key = f.key := by
+  unfold itemUpd
+  cases h : itemFrameUpd it with
+  | none => rfl
+  | some p =>
+    obtain ⟨n, g⟩ := p
+    simp only [updByNumber]
+    split
+    · cases it with
+      | tx t => simp only [itemFrameUpd, Option.some.injEq, Prod.mk.injEq] at h; obtain ⟨_, rfl⟩ := h; rfl
+      | val v => simp only [itemFrameUpd, Option.some.injEq, Prod.mk.injEq] at h; obtain ⟨_, rfl⟩ := h; exact modSigByName_key _ _ f
+      | cm hd text =>
+        cases hd with
+        | bo id => simp only [itemFrameUpd, Option.some.injEq, Prod.mk.injEq] at h; obtain ⟨_, rfl⟩ := h; rfl
+        | sg id name => simp only [itemFrameUpd, Option.some.injEq, Prod.mk.injEq] at h; obtain ⟨_, rfl⟩ := h; exact modSigByName_key _ _ f
+        | bu name => simp [itemFrameUpd] at h
+      | _ => simp [itemFrameUpd] at h
+    · rfl
+
+theorem keysUnique_of_keys (m m' : RMatrix) (h : m'.frames.map (·.key) = m.frames.map (·.key)) (hu : KeysUnique m) : KeysUnique m' := by
+  unfold KeysUnique at *
+  have e : ∀ l : List RFrame, l.Pairwise (fun a b => a.key ≠ b.key) ↔ (l.map (·.key)).Pairwise (· ≠ ·) := by
+    intro l; rw [List.pairwise_map]
+  rw [e] at hu ⊢
+  rw [h]; exact hu
+
+theorem applyItem_frames' (m : RMatrix) (hu : KeysUnique m) (it : Item) (hit : (itemFrameUpd it).isSome = true) :
+    (applyItem m it).frames = m.frames.map (itemUpd it) := by
+  obtain ⟨p, hp⟩ := Option.isSome_iff_exists.mp hit
+  obtain ⟨n, g⟩ := p
+  rw [applyItem_frames m hu it n g hp]
+  apply List.map_congr_left
+  intro f _
+  simp [itemUpd, hp]
+
+/-- a sequence of statements about frames and signals: every frame goes through the updates of the statements that name it, in their order -/
+theorem frames_after_items (its : List Item) (m : RMatrix) (hu : KeysUnique m) (hall : ∀ it ∈ its, (itemFrameUpd it).isSome = true) :
+    (its.foldl applyItem m).frames = m.frames.map fun f => its.foldl (fun acc it => itemUpd it acc) f := by
+  induction its generalizing m with
+  | nil => simp
+  | cons it its ih =>
+    simp only [List.foldl_cons]
+    have h1 := applyItem_frames' m hu it (hall it (by simp))
+    have hu' : KeysUnique (applyItem m it) := by
+      apply keysUnique_of_keys m _ _ hu
+      rw [h1, List.map_map]
+      apply List.map_congr_left
+      intro f _
+      exact itemUpd_key it f
+    rw [ih (applyItem m it) hu' (fun x hx => hall x (List.mem_cons_of_mem _ hx)), h1, List.map_map]
+    rfl
+
 end CanVerif.Dbc.FileProofs
